@@ -137,6 +137,16 @@ Sem(v) ==
              good == SelectSeq(sems, LAMBDA s : s.ok) IN
          IF good = <<>> THEN Unres ELSE good[1]
 
+(* the reading of the composition calculator (recorded deviation C03_AlternativePrecedence): the first alternative *)
+(* that carries a composition wins over an earlier numeric alternative                                             *)
+SemPref(v) ==
+    LET tag == SubSeq(v, 1, 1)  body == SubSeq(v, 3, Len(v)) IN
+    IF tag \in {"i", "f"} THEN Sem(v)
+    ELSE LET alts == SplitBar(body)
+             sems == [ k \in 1..Len(alts) |-> IF At(alts[k], 1) = "#" THEN Unres ELSE SemAlt(StripTag(alts[k])) ]
+             withComp == SelectSeq(sems, LAMBDA s : s.ok /\ s.comp # EmptyComp) IN
+         IF withComp = <<>> THEN Sem(v) ELSE withComp[1]
+
 (* a modification with its multiplier *)
 SemMod(m) == LET s == Sem(m.v) IN
              IF ~s.ok THEN Unres ELSE [ok |-> TRUE, comp |-> CScale(s.comp, m.m), delta |-> FMulInt(s.delta, m.m),
